@@ -755,18 +755,23 @@ class Process(StateMachine, persistence.Savable, metaclass=ProcessStateMachineMe
         elif state_label == process_states.ProcessState.KILLED:
             call_with_super_check(self.on_killed)
 
-        if self._communicator and isinstance(self.state, enum.Enum):
-            from_label = cast(enum.Enum, from_state.LABEL).value if from_state is not None else None
-            subject = f'state_changed.{from_label}.{self.state.value}'
+        if self._communicator:
+            # (the label of a state is an enum member or, for a state class plugged in by an application, a plain string)
+            def label_text(label: Any) -> Any:
+                return label.value if isinstance(label, enum.Enum) else label
+
+            from_label = label_text(from_state.LABEL) if from_state is not None else None
+            to_label = label_text(self.state)
+            subject = f'state_changed.{from_label}.{to_label}'
             self.logger.info('Process<%s>: Broadcasting state change: %s', self.pid, subject)
             try:
                 self._communicator.broadcast_send(body=None, sender=self.pid, subject=subject)
             except (ConnectionClosed, ChannelInvalidStateError):
                 message = 'Process<%s>: no connection available to broadcast state change from %s to %s'
-                self.logger.warning(message, self.pid, from_label, self.state.value)
+                self.logger.warning(message, self.pid, from_label, to_label)
             except kiwipy.TimeoutError:
                 message = 'Process<%s>: sending broadcast of state change from %s to %s timed out'
-                self.logger.warning(message, self.pid, from_label, self.state.value)
+                self.logger.warning(message, self.pid, from_label, to_label)
 
     def on_exiting(self) -> None:
         state = self.state
